@@ -121,6 +121,9 @@ NONCONTIG_MODELS = [
     ("chain3-doped-in-field", "site A 1 2\nsite B 1 2\nsite C 1 2\naddCoulombS A 2 -0.5\naddCoulombS B 2 -0.5\naddCoulombS C 2 -0.5\naddHopping4 A B 0.5\naddHopping4 B C 0.5\naddMagnetization B 0.25\nsymm default\n", 6),
 ]
 NONCONTIG_BETAS = [4.0, 10.0, 30.0]
+HOT_MODELS = [("hot-dimer-U20", "site A 1 2\nsite B 1 2\naddCoulombS A 20 -10\naddCoulombS B 20 -10\naddHopping4 A B 1\n", 4),
+              ("hot-atom-U16", "site A 1 2\naddCoulombS A 16 -3\n", 2)]
+HOT_BETAS = [0.125, 0.5]
 EPS_MAX = 1e-2           # the property quantifies over eps in [0, 1e-2]
 
 
@@ -555,6 +558,14 @@ def run(chk):
                 # (the run is compared with the untruncated one and with the model of a single call)
                 for pre, eps in SEQS[(len(jobs) // len(EPSS)) % len(SEQS)] if not quick else SEQS[(len(jobs) // len(EPSS)) % len(SEQS)][:2]:
                     jobs.append((fam + "+history", text + "".join("trunc %s\n" % repr(e) for e in pre), n, beta, eps, q))
+    # high temperature, wide gaps (beta < 1, excitation energies above -log(eps)): the weights of the excited blocks,
+    # exp(-beta (E - E_0)) / Z, stay far above eps although E - E_0 itself is large -- a cut that looks at energies without
+    # the factor beta discards blocks that must be retained
+    for name, text, n in HOT_MODELS:
+        for beta in HOT_BETAS:
+            q = queries_for(chk.rng, n, beta, quick)[0]
+            for eps in ((1e-2, 1e-4) if quick else (1e-2, 1e-3, 1e-4, 1e-8)):
+                jobs.append((name, text, n, beta, eps, q))
     groups = noncontig_groups(quick)
     with cf.ThreadPoolExecutor(max_workers=min(8, pv.NPROC)) as ex:
         fut = [ex.submit(run_noncontig_group, g) for g in groups]      # the longest jobs (6 modes, all pairs) first
